@@ -35,12 +35,14 @@ fn grid(case: &Case) -> Option<(Vec<Point3>, Vec<[u32; 3]>)> {
         for i in 0..nx {
             let interior = i > 0 && j > 0 && i + 1 < nx && j + 1 < ny;
             let (mut dx, mut dy) = (0.0, 0.0);
-            if interior && case.jitter > 0 {
+            if interior && case.jitter > 0 && case.jitter < 3 {
                 let k = (i * 3 + j * 5 + case.jitter) % 4;
                 dx = [0.25, -0.25, 0.0, 0.25][k];
                 dy = [0.0, 0.25, -0.25, -0.25][k];
             }
-            v.push(Point3::new(i as f64 + dx, j as f64 * 1.25 + dy, 0.0));
+            // pattern 3 shears the whole grid (obtuse triangles everywhere)
+            let shear = if case.jitter == 3 { 0.8 * j as f64 * 1.25 } else { 0.0 };
+            v.push(Point3::new(i as f64 + dx + shear, j as f64 * 1.25 + dy, 0.0));
         }
     }
     let mut f: Vec<[u32; 3]> = Vec::new();
@@ -196,7 +198,7 @@ fn judge_grid(case: &Case, l: &mut Local) {
     let iso = gen::iso3_poses()[case.pose % 5];
     let v: Vec<Point3> = v1.iter().map(|q| iso * q).collect();
     l.distinct(hash_of(&serde_json::to_string(case).unwrap()));
-    l.bucket(if case.kind == "fan" { "disk without interior vertex" } else if case.drop >= 0 { "non-convex outline" } else if case.jitter > 0 { "displaced interior vertices" } else { "regular grid disk" });
+    l.bucket(if case.kind == "fan" { "disk without interior vertex" } else if case.drop >= 0 { "non-convex outline" } else if case.jitter == 3 { "sheared grid (obtuse triangles)" } else if case.jitter > 0 { "displaced interior vertices" } else { "regular grid disk" });
     if case.pose > 0 {
         l.bucket("posed in 3D");
     }
@@ -221,7 +223,13 @@ fn judge_grid(case: &Case, l: &mut Local) {
     }
     // UV round trip (unposed, unrelabelled meshes carry the map)
     if let (Some(uv), 0, 0) = (&uv, case.pose, case.relabel) {
-        if let Ok(map) = UvMapping::new(uv.clone(), f1.clone()) {
+        for mirrored in [false, true] {
+            // a UV map may be given with the v axis pointing down (image coordinates)
+            let uv_used: Vec<Point2> = if mirrored { uv.iter().map(|p| Point2::new(p.x, -p.y)).collect() } else { uv.clone() };
+            let map = match UvMapping::new(uv_used, f1.clone()) {
+                Ok(m) => m,
+                Err(_) => continue,
+            };
             let m2 = Mesh::new_with_uv(v.clone(), f1.clone(), false, Some(map));
             for t in f1.iter() {
                 for bc in [[0.2, 0.3, 0.5], [1.0 / 3.0, 1.0 / 3.0, 1.0 / 3.0], [0.6, 0.3, 0.1], [0.05, 0.9, 0.05]] {
@@ -229,7 +237,7 @@ fn judge_grid(case: &Case, l: &mut Local) {
                     let p3 = Point3::from(v[t[0] as usize].coords * bc[0] + v[t[1] as usize].coords * bc[1] + v[t[2] as usize].coords * bc[2]);
                     let lifted = p3 + Vector3::new(0.0, 0.0, 0.01);
                     let r = guarded(|| m2.uv_with_tol(&lifted, 0.1, 0.5, None).and_then(|(uvp, depth)| m2.uv_to_3d(&uvp).map(|b| (b, depth))));
-                    l.bucket("UV round trip");
+                    l.bucket(if mirrored { "UV round trip through a mirrored map" } else { "UV round trip" });
                     match r {
                         Ok(Some((back, depth))) => {
                             l.check("a surface point round-trips through UV coordinates", "", d3(&back.point, &p3) <= 1e-6 && (depth - 0.01).abs() <= 1e-9 && (back.normal.into_inner() - Vector3::z()).norm() <= 1e-9, mk, || {
@@ -324,8 +332,8 @@ pub fn cases(tier: Tier) -> Vec<Case> {
         let cells = (nx - 1) * (ny - 1);
         for bits in 0..(1u32 << cells) {
             for drop in -1..cells as i64 {
-                for jitter in 0..3 {
-                    if jitter > 0 && (nx < 3 || ny < 3) {
+                for jitter in 0..4 {
+                    if (jitter == 1 || jitter == 2) && (nx < 3 || ny < 3) {
                         continue;
                     }
                     let nv = nx * ny;
@@ -368,7 +376,7 @@ pub fn run(tier: Tier) -> i32 {
     let mut cx = Ctx::new("C20", tier, "exploration");
     cx.rule = "planar disks: m x n vertex grids (2x2 .. 4x3, thorough 4x4) with every diagonal assignment (2^cells), every single corner cell removed (non-convex outline), interior vertices displaced on a quarter-step lattice (3 patterns), fans without interior vertex (1..5 triangles); every vertex relabelling for <= 6 vertices, 5 fixed relabellings beyond; 5 poses; curved height-field disks for the invariance clause; rejection inputs (tetrahedron, box, octahedron, annulus, two disjoint disks, three faces on one edge); UV round trips at 4 barycentric points of every face. distinct = distinct cases".into();
     cx.bounds = json!({"largest_grid": tier.pick("4x3", "4x4"), "poses": 5, "relabellings_small": "all n!", "relabellings_large": 5});
-    cx.require(&["regular grid disk", "non-convex outline", "displaced interior vertices", "disk without interior vertex", "posed in 3D", "relabelled vertices", "curved disk", "non-disk input", "UV round trip"]);
+    cx.require(&["regular grid disk", "non-convex outline", "displaced interior vertices", "disk without interior vertex", "posed in 3D", "relabelled vertices", "curved disk", "non-disk input", "UV round trip", "UV round trip through a mirrored map", "sheared grid (obtuse triangles)"]);
     cx.assume("edge lengths compared at 1e-6 relative (the solver adds a 1e-8 regulariser)");
     let cs = cases(tier);
     let l = sweep(&cs, judge);
